@@ -25,6 +25,16 @@ impl TestStore {
         let store = Arc::new(ContinuityStore::new(data_dir.clone(), ws.clone(), log).expect("store"));
         TestStore { scratch, data_dir, ws, store }
     }
+    /// the store behind a full application router (for calls through the HTTP layer)
+    pub fn with_app(tag: &str) -> (TestStore, ripd::verif_export::VerifApp) {
+        let scratch = Scratch::new(tag);
+        let data_dir = scratch.path().join("data");
+        let ws = scratch.path().join("ws");
+        std::fs::create_dir_all(&ws).unwrap();
+        let app = ripd::verif_export::VerifApp::new(data_dir.clone(), ws.clone());
+        let store = app.continuities();
+        (TestStore { scratch, data_dir, ws, store }, app)
+    }
     /// a fresh engine over the same directories (authority restart)
     pub fn reopen(&mut self) {
         let log = Arc::new(EventLog::new(self.data_dir.join("events.jsonl")).expect("log"));
